@@ -51,6 +51,16 @@ def _impl(tier, seed, search):
         L.close('q-conj-q', b.qqmul(a, b.conj(a)), np.r_[np.dot(a, a), 0, 0, 0], 1e-9, sa * sa, inp)
         L.close('matrix-form', b.matrix(a) @ c, b.qqmul(a, c), 1e-9, sa * sc, inp)
         L.close('inner', b.inner(a, c), float(np.dot(a, c)), 1e-9, sa * sc, inp)
+        # products of sequences are element-wise Hamilton products (N x N), broadcast for 1 x N and N x 1
+        if i % 5 == 1:
+            Np = int(g.integers(2, 5)); pa_ = [g.normal(size=4) for _ in range(Np)]; pb_ = [g.normal(size=4) for _ in range(Np)]
+            ok, r = L.noraise('mul(NxN)', lambda: ([np.asarray(x_, float) for x_ in (Quaternion(pa_) * Quaternion(pb_)).data], [np.asarray(x_, float) for x_ in (Quaternion(pa_[0]) * Quaternion(pb_)).data],
+                                                   [np.asarray(x_, float) for x_ in (Quaternion(pa_) * Quaternion(pb_[0])).data]), dict(N=Np), 'Quaternion product of sequences')
+            if ok and len(r[0]) == Np and len(r[1]) == Np and len(r[2]) == Np:
+                for k_ in range(Np):
+                    L.close('mul(NxN)', r[0][k_], b.qqmul(pa_[k_], pb_[k_]), 1e-9, 16.0, dict(N=Np, k=k_), what='element k of the product of two quaternion sequences is not the Hamilton product of the k-th elements', sig='mul:multi')
+                    L.close('mul(1xN)', r[1][k_], b.qqmul(pa_[0], pb_[k_]), 1e-9, 16.0, dict(N=Np, k=k_), sig='mul:multi'); L.close('mul(Nx1)', r[2][k_], b.qqmul(pa_[k_], pb_[0]), 1e-9, 16.0, dict(N=Np, k=k_), sig='mul:multi')
+            elif ok: L.check('mul(NxN):len', False, dict(N=Np), 'product of quaternion sequences has the wrong number of values', sig='mul:multi')
         # inner product of sequences: N x N gives the N element-wise values, 1 x N / N x 1 broadcast, unequal lengths raise
         if i % 5 == 0:
             Nq = int(g.integers(2, 5)); qa_ = [g.normal(size=4) for _ in range(Nq)]; qb_ = [g.normal(size=4) for _ in range(Nq)]
